@@ -17,6 +17,10 @@
 //! frame, naming the changed files; frame order = order in which the mutations ended.
 //! Correspondence: the observed micro-steps (+ blocked attempts) are replayed in the Coq LTS
 //! compiled from the regenerated spans (Model.WsLockCase.check_case).
+#[path = "c11/fx.rs"]
+mod fx;
+#[path = "../ws_common.rs"]
+mod ws_common;
 use rv::*;
 use serde_json::{json, Value};
 use std::collections::{BTreeMap, HashMap};
@@ -47,6 +51,9 @@ enum Kind {
     Task,       // background shell task (pipes), blocking, markers
     TaskPty,
     Loop,       // provider-driven session: several tool calls (see `LOOP_CALLS`)
+    /// a write / apply_patch / bash call whose FILE EFFECTS are the point (shape `fx::shape(n, ..)`): the frame's
+    /// affected_paths against the workspace diff of the call
+    Fx(u32),
 }
 use Kind::*;
 
@@ -68,6 +75,7 @@ impl Kind {
             Ls => "ls",
             Grep => "grep",
             Fetch => "artifact_fetch",
+            Fx(n) => fx::tool_name(n),
             _ => "",
         }
     }
@@ -76,14 +84,32 @@ impl Kind {
         matches!(self, Read | Ls | Grep | Fetch)
     }
     fn spec_mutating_tool(self) -> bool {
-        matches!(self, Bash | Shell | BashQuick | BashTimeout | Write | Patch)
+        matches!(self, Bash | Shell | BashQuick | BashTimeout | Write | Patch | Fx(_))
     }
     fn blocking(self) -> bool {
         matches!(self, Bash | Shell | BashTimeout | Task | TaskPty)
     }
     fn marks(self) -> bool {
-        matches!(self, Bash | Shell | BashQuick | BashTimeout | Task | TaskPty)
+        matches!(self, Bash | Shell | BashQuick | BashTimeout | Task | TaskPty) || matches!(self, Fx(n) if fx::class(n) == fx::CLASS_BASH)
     }
+    /// the tool of the call as the property classifies it: a shell command (its frame carries no file list)
+    fn is_shell_tool(self) -> bool {
+        matches!(self, Bash | Shell | BashQuick | BashTimeout) || matches!(self, Fx(n) if fx::class(n) == fx::CLASS_BASH)
+    }
+}
+
+fn fx_dir(i: usize, c: usize) -> String {
+    format!("fx{i}_{c}")
+}
+
+/// the workspace without `.rip`
+fn ws_listing(ws: &Path) -> ws_common::Listing {
+    let mut l = ws_common::list_tree(ws);
+    l.retain(|c, _| c.first().map(|x| x.as_slice() != b".rip").unwrap_or(true));
+    l
+}
+fn listing_files(l: &ws_common::Listing) -> BTreeMap<String, Vec<u8>> {
+    ws_common::files_only(l).into_iter().map(|(c, b)| (ws_common::show_comps(&c), b)).collect()
 }
 
 #[derive(Clone, Debug, serde::Serialize, serde::Deserialize)]
@@ -249,6 +275,9 @@ struct Run<'a> {
     task_handles: Vec<Option<ripd::verif::VerifTask>>,
     cancelled: Vec<bool>,
     ws_before: BTreeMap<String, Vec<u8>>,
+    ws_before_listing: ws_common::Listing,
+    /// workspace listing when the call got the lock / when its tool had returned
+    call_fs: BTreeMap<(usize, u64), (ws_common::Listing, ws_common::Listing)>,
     changed_by: BTreeMap<(usize, u64), Vec<String>>,
     priority: Option<usize>,
     attempted: std::collections::BTreeSet<String>,
@@ -338,6 +367,14 @@ impl<'a> Run<'a> {
             Ls => json!({"path": "."}),
             Grep => json!({"pattern": "seed", "path": "."}),
             Fetch => json!({"id": "0".repeat(64)}),
+            Fx(n) => match fx::shape(n, &fx_dir(i, c), &self.ws).tool {
+                fx::Tool::Write { path, content, mode } => fx::write_args(&path, &content, mode),
+                fx::Tool::Patch { text } => json!({"patch": text}),
+                fx::Tool::Bash { effects } => {
+                    let m = marker_path(&self.side);
+                    json!({"command": format!("echo enter {i} $$ >> {m}; {}; echo exit {i} >> {m}", fx::bash_script(&effects), m = m.display())})
+                }
+            },
             _ => json!({}),
         }
     }
@@ -459,22 +496,6 @@ impl<'a> Run<'a> {
         }
     }
 
-    /// (relative path -> bytes) of the workspace outside `.rip`
-    fn ws_snapshot(&self) -> BTreeMap<String, Vec<u8>> {
-        let mut m = BTreeMap::new();
-        if let Ok(rd) = std::fs::read_dir(&self.ws) {
-            for e in rd.flatten() {
-                let name = e.file_name().to_string_lossy().to_string();
-                if name == ".rip" {
-                    continue;
-                }
-                if e.file_type().map(|t| t.is_file()).unwrap_or(false) {
-                    m.insert(name, std::fs::read(e.path()).unwrap_or_default());
-                }
-            }
-        }
-        m
-    }
 
     fn frames_of(&self, i: usize) -> usize {
         let evs = self.store.replay_events(&self.thread).unwrap_or_default();
@@ -503,6 +524,22 @@ impl<'a> Run<'a> {
             add(a.kind, self.actor_file(i));
             for (c, k) in a.calls.iter().enumerate() {
                 add(*k, self.call_file(i, c));
+            }
+            let mut addfx = |k: Kind, c: usize| {
+                if let Fx(n) = k {
+                    if fx::class(n) != fx::CLASS_BASH {
+                        let sh = fx::shape(n, &fx_dir(i, c), &self.ws);
+                        for p in sh.named.iter().chain(sh.init.iter().map(|(p, _)| p)) {
+                            if !p.starts_with('/') && !targets.iter().any(|(_, q)| q == p) {
+                                targets.push((i, p.clone()));
+                            }
+                        }
+                    }
+                }
+            };
+            addfx(a.kind, 0);
+            for (c, k) in a.calls.iter().enumerate() {
+                addfx(*k, c);
             }
         }
         for (i, name) in targets {
@@ -684,7 +721,9 @@ impl<'a> Run<'a> {
             }
         }
         // what the call really changed in the workspace (nobody else moved since it was let go)
-        let now = self.ws_snapshot();
+        let now_listing = ws_listing(&self.ws);
+        let now = listing_files(&now_listing);
+        self.call_fs.insert((i, c), (self.ws_before_listing.clone(), now_listing));
         let mut changed: Vec<String> = vec![];
         for (k, v) in &now {
             if self.ws_before.get(k) != Some(v) {
@@ -752,7 +791,8 @@ impl<'a> Run<'a> {
             return;
         }
         if p.ends_with(".acquired") {
-            self.ws_before = self.ws_snapshot();
+            self.ws_before_listing = ws_listing(&self.ws);
+            self.ws_before = listing_files(&self.ws_before_listing);
             self.ctl.grant(i);
             self.tool_running = true;
             let st = self.wait_actor(i, LONG, k.blocking());
@@ -994,6 +1034,11 @@ struct Outcome {
     done: Vec<bool>,
     frames: Vec<(u64, u64)>,
     marks: Vec<(u64, u64)>,
+    /// one Coq term (Model.SideEffects.fcase) per mutating tool call of an attached run that has its frame
+    fx_cases: Vec<String>,
+    /// (frames with a file list, listed paths, listed paths the call left unchanged, frames without a list)
+    fx_stats: [u64; 4],
+    fx_tags: Vec<String>,
 }
 
 fn wait_session_events(rx: &mut tokio::sync::broadcast::Receiver<Event>, limit: Duration) -> Vec<Event> {
@@ -1028,7 +1073,7 @@ fn run_scenario(rt: &tokio::runtime::Runtime, ctl: &Arc<Ctl>, sc: &Scenario, set
     std::fs::create_dir_all(&side).unwrap();
     std::fs::write(ws.join("seed.txt"), "seed\n").unwrap();
     for (i, a) in sc.actors.iter().enumerate() {
-        let mut mk = |k: Kind, f: String| {
+        let mk = |k: Kind, f: String| {
             if k == Patch {
                 std::fs::write(ws.join(format!("u_{f}")), "old\n").unwrap();
                 std::fs::write(ws.join(format!("d_{f}")), "bye\n").unwrap();
@@ -1037,6 +1082,19 @@ fn run_scenario(rt: &tokio::runtime::Runtime, ctl: &Arc<Ctl>, sc: &Scenario, set
         mk(a.kind, format!("w{i}.txt"));
         for (c, k) in a.calls.iter().enumerate() {
             mk(*k, format!("w{i}_{c}.txt"));
+        }
+        let mkfx = |k: Kind, c: usize| {
+            if let Fx(n) = k {
+                for (p, content) in fx::shape(n, &fx_dir(i, c), &ws).init {
+                    let path = ws.join(&p);
+                    std::fs::create_dir_all(path.parent().unwrap()).unwrap();
+                    std::fs::write(path, content).unwrap();
+                }
+            }
+        };
+        mkfx(a.kind, 0);
+        for (c, k) in a.calls.iter().enumerate() {
+            mkfx(*k, c);
         }
     }
     std::fs::write(marker_path(&side), "").unwrap();
@@ -1061,9 +1119,7 @@ fn run_scenario(rt: &tokio::runtime::Runtime, ctl: &Arc<Ctl>, sc: &Scenario, set
     }
     ctl.reset(&sc.actors.iter().map(|a| a.linked).collect::<Vec<_>>());
 
-    let files_seen0: BTreeMap<String, Vec<u8>> = std::fs::read_dir(&ws)
-        .map(|rd| rd.flatten().filter(|e| e.file_type().map(|t| t.is_file()).unwrap_or(false)).map(|e| (e.file_name().to_string_lossy().to_string(), std::fs::read(e.path()).unwrap_or_default())).collect())
-        .unwrap_or_default();
+    let files_seen0: BTreeMap<String, Vec<u8>> = listing_files(&ws_listing(&ws));
     let mut run = Run {
         sc,
         ctl: ctl.clone(),
@@ -1085,6 +1141,8 @@ fn run_scenario(rt: &tokio::runtime::Runtime, ctl: &Arc<Ctl>, sc: &Scenario, set
         task_handles: (0..n).map(|_| None).collect(),
         cancelled: vec![false; n],
         ws_before: BTreeMap::new(),
+        ws_before_listing: Default::default(),
+        call_fs: BTreeMap::new(),
         changed_by: BTreeMap::new(),
         priority: None,
         attempted: Default::default(),
@@ -1223,6 +1281,9 @@ fn run_scenario(rt: &tokio::runtime::Runtime, ctl: &Arc<Ctl>, sc: &Scenario, set
     let mut frames: Vec<(u64, u64)> = vec![];
     let mut per_actor_calls: BTreeMap<usize, u64> = BTreeMap::new();
     let mut run_ended_seen: Vec<usize> = vec![];
+    let mut fx_cases: Vec<String> = vec![];
+    let mut fx_tags: Vec<String> = vec![];
+    let mut fx_stats = [0u64; 4];
     for e in &evs {
         match &e.kind {
             EventKind::ContinuityToolSideEffects { run_session_id, tool_name, affected_paths, .. } => {
@@ -1254,6 +1315,73 @@ fn run_scenario(rt: &tokio::runtime::Runtime, ctl: &Arc<Ctl>, sc: &Scenario, set
                     if let Some(want) = run.changed_by.get(&(a, c)).cloned() {
                         if affected_paths.clone().unwrap_or_default() != want || want.is_empty() {
                             run.viol("frame-content", format!("frame of actor {a} call {c} ({k:?}) lists {affected_paths:?}, the workspace diff of the call is {want:?}"));
+                        }
+                    }
+                }
+                // "listing the files it changed": every path the call created, deleted or modified is in the
+                // list; a listed path the call left as it was is one the call NAMES (counted, see notes)
+                if k.spec_mutating_tool() {
+                    if let Some(changed) = run.changed_by.get(&(a, c)).cloned() {
+                        let (tag, named) = match k {
+                            Fx(n) => {
+                                let sh = fx::shape(n, &fx_dir(a, c as usize), &run.ws);
+                                (sh.tag, Some(sh.named))
+                            }
+                            _ => (format!("{k:?}"), None),
+                        };
+                        match affected_paths {
+                            None => {
+                                fx_stats[3] += 1;
+                                if !k.is_shell_tool() && !changed.is_empty() {
+                                    run.viol("frame-content", format!("frame of actor {a} call {c} ({tag}) carries no file list, the call changed {changed:?}"));
+                                }
+                            }
+                            Some(l) => {
+                                fx_stats[0] += 1;
+                                fx_stats[1] += l.len() as u64;
+                                let missing: Vec<&String> = changed.iter().filter(|p| !l.contains(p)).collect();
+                                if !missing.is_empty() {
+                                    run.viol("frame-content", format!("frame of actor {a} call {c} ({tag}) lists {l:?} and omits {missing:?}: the workspace diff of the call (created, deleted, modified) is {changed:?}"));
+                                }
+                                let extra: Vec<&String> = l.iter().filter(|p| !changed.contains(p)).collect();
+                                fx_stats[2] += extra.len() as u64;
+                                if let Some(named) = &named {
+                                    let foreign: Vec<&&String> = extra.iter().filter(|p| !named.contains(p)).collect();
+                                    if !foreign.is_empty() {
+                                        run.viol("frame-content", format!("frame of actor {a} call {c} ({tag}) lists {foreign:?}, which the call neither changed nor names"));
+                                    }
+                                }
+                            }
+                        }
+                        // the same call in the model (Model/SideEffects.v)
+                        if let Some((before, after)) = run.call_fs.get(&(a, c)) {
+                            let by = |s: &str| ws_common::coq_bytes(s.as_bytes());
+                            let call = match k {
+                                Fx(n) => match fx::shape(n, &fx_dir(a, c as usize), &run.ws).tool {
+                                    fx::Tool::Write { path, content, mode } => Some(format!("CWrite {} {mode} {} {}", by(&path), by(&content), by("tmp-0"))),
+                                    fx::Tool::Patch { text } => Some(format!("CPatch {}", by(&text))),
+                                    fx::Tool::Bash { .. } => None,
+                                },
+                                Write | Patch => {
+                                    let args = run.tool_args(a, c as usize, k);
+                                    let g = |f: &str| args.get(f).and_then(|v| v.as_str()).unwrap_or("").to_string();
+                                    if k == Write {
+                                        Some(format!("CWrite {} 0 {} {}", by(&g("path")), by(&g("content")), by("tmp-0")))
+                                    } else {
+                                        Some(format!("CPatch {}", by(&g("patch"))))
+                                    }
+                                }
+                                _ => None,
+                            }
+                            .unwrap_or_else(|| format!("CShell {}", ws_common::coq_fs(after)));
+                            let frame = coq_opt(affected_paths, |l| coq_list(l, |s| by(s)));
+                            fx_cases.push(format!(
+                                "{{| fc_root := {}; fc_fs := {}; fc_call := {call}; fc_frame := {frame}; fc_after := {} |}}",
+                                by(&run.ws.to_string_lossy()),
+                                ws_common::coq_fs(before),
+                                ws_common::coq_fs(after)
+                            ));
+                            fx_tags.push(tag);
                         }
                     }
                 }
@@ -1320,7 +1448,7 @@ fn run_scenario(rt: &tokio::runtime::Runtime, ctl: &Arc<Ctl>, sc: &Scenario, set
         }
         keyed.push((*a as u64 * 256 + call as u64, *w));
     }
-    Outcome { gos, obs, done, frames, marks: keyed }
+    Outcome { gos, obs, done, frames, marks: keyed, fx_cases, fx_stats, fx_tags }
 }
 
 // ------------------------------------------------------------------------------------ generation
@@ -1330,11 +1458,14 @@ fn gen_scenario(r: &mut Rng, thorough: bool) -> Scenario {
     let mutators = [Bash, Bash, Shell, BashQuick, BashTimeout, Write, Write, Patch, Unknown, CkptCreate, CkptRewind, Task, Task, Loop, Loop];
     let readers = [Read, Ls, Grep, Fetch];
     for i in 0..n {
-        let kind = if i == 0 || r.chance(7, 10) { *r.pick(&mutators) } else { *r.pick(&readers) };
+        let mut kind = if i == 0 || r.chance(7, 10) { *r.pick(&mutators) } else { *r.pick(&readers) };
+        if kind.spec_mutating_tool() && r.chance(1, 4) {
+            kind = Fx(r.below(FX_RANGE) as u32);
+        }
         let linked = !kind.is_task() && r.chance(3, 4);
         let calls = if kind == Loop {
             let pool = [BashQuick, Write, Patch, Read, Ls, Grep, Bash, Unknown, Write];
-            (0..r.range(1, 4)).map(|_| *r.pick(&pool)).collect()
+            (0..r.range(1, 4)).map(|_| if r.chance(1, 4) { Fx(r.below(FX_RANGE) as u32) } else { *r.pick(&pool) }).collect()
         } else {
             vec![]
         };
@@ -1344,6 +1475,57 @@ fn gen_scenario(r: &mut Rng, thorough: bool) -> Scenario {
     // at most three FIFO-blocked shells can be inside the tool runner at once (its own permit count
     // is 4); more than one can only happen after a violation, keep the scenario small anyway
     Scenario { actors, gos: vec![], seed: r.next() }
+}
+
+/// variants of `Fx`: the hand-written shapes first, everything above is drawn from the number
+const FX_RANGE: u64 = 30_000;
+
+/// scenarios whose point is the CONTENT of the side-effects frames: runs attached to the thread, through the
+/// agent-loop call site (one call per provider response or all in one) and the tool-envelope call site
+fn gen_fx_scenario(r: &mut Rng) -> Scenario {
+    let fxk = |r: &mut Rng| {
+        // apply_patch twice as often as write, bash now and then
+        let class = *r.pick(&[fx::CLASS_PATCH, fx::CLASS_PATCH, fx::CLASS_PATCH, fx::CLASS_PATCH, fx::CLASS_WRITE, fx::CLASS_WRITE, fx::CLASS_BASH]);
+        Fx((r.below(FX_RANGE / 3) as u32) * 3 + class)
+    };
+    let mut actors = vec![ActorSpec { kind: Loop, linked: true, calls: (0..r.range(2, 5)).map(|_| fxk(r)).collect(), batch: r.chance(1, 3) }];
+    for _ in 0..r.range(0, 2) {
+        actors.push(ActorSpec { kind: fxk(r), linked: true, calls: vec![], batch: false });
+    }
+    if r.chance(1, 3) {
+        actors.push(ActorSpec { kind: *r.pick(&[Read, Ls, Grep]), linked: true, calls: vec![], batch: false });
+    }
+    Scenario { actors, gos: vec![], seed: r.next() }
+}
+
+/// every hand-written shape once through the agent-loop site and once through the envelope site
+fn corpus_fx() -> Vec<Scenario> {
+    let mut all: Vec<Kind> = vec![];
+    for k in 0..fx::HAND_PATCH {
+        all.push(Fx(3 * k + fx::CLASS_PATCH));
+    }
+    for k in 0..fx::HAND_WRITE {
+        all.push(Fx(3 * k + fx::CLASS_WRITE));
+    }
+    for k in 0..fx::HAND_BASH {
+        all.push(Fx(3 * k + fx::CLASS_BASH));
+    }
+    let n = all.len();
+    let mut out = vec![];
+    for (j, chunk) in all.chunks(6).enumerate() {
+        // the envelope actors take the shapes half the list away, so that every shape meets both sites
+        let env: Vec<ActorSpec> = (0..2).map(|e| ActorSpec { kind: all[(j * 6 + n / 2 + e * 3) % n], linked: true, calls: vec![], batch: false }).collect();
+        let mut actors = vec![ActorSpec { kind: Loop, linked: true, calls: chunk.to_vec(), batch: j % 2 == 1 }];
+        actors.extend(env);
+        out.push(Scenario { actors, gos: vec![], seed: 100 + j as u64 });
+    }
+    // the remaining shapes through the envelope site
+    let covered: Vec<Kind> = out.iter().flat_map(|s| s.actors.iter().skip(1).map(|a| a.kind)).collect();
+    let rest: Vec<Kind> = all.iter().copied().filter(|k| !covered.contains(k)).collect();
+    for (j, chunk) in rest.chunks(4).enumerate() {
+        out.push(Scenario { actors: chunk.iter().map(|k| ActorSpec { kind: *k, linked: true, calls: vec![], batch: false }).collect(), gos: vec![], seed: 200 + j as u64 });
+    }
+    out
 }
 
 fn corpus() -> Vec<Scenario> {
@@ -1394,7 +1576,7 @@ fn coq_case(sc: &Scenario, o: &Outcome) -> String {
 fn main() {
     let a = parse_args();
     let mut res = RunResult::new("C11", &a);
-    res.rule = "scenario = 2..6 actors (sessions with tool envelopes bash/shell/write/apply_patch/unknown/read/ls/grep/artifact_fetch, checkpoint create/rewind, pipes/pty tasks; attached to one thread or not) driven in lock step at the ws.* hook points + FIFO-blocked commands; the Go sequence is drawn on line (2:1 in favour of moving somebody else while the lock is held, i.e. overlap attempts); non-trivial = at least one blocked attempt or a read-only call completed while a mutating call was running; distinct by (actors, Go sequence)".into();
+    res.rule = "scenario = 2..6 actors (sessions with tool envelopes bash/shell/write/apply_patch/unknown/read/ls/grep/artifact_fetch, checkpoint create/rewind, pipes/pty tasks; attached to one thread or not) driven in lock step at the ws.* hook points + FIFO-blocked commands; the Go sequence is drawn on line (2:1 in favour of moving somebody else while the lock is held, i.e. overlap attempts); non-trivial = at least one blocked attempt or a read-only call completed while a mutating call was running; distinct by (actors, Go sequence).  Fx(n) actors / calls = write (4 modes), apply_patch (add, update, delete, move, move onto an existing file, several operations on one path, failing and unparsable patches) and shell commands chosen for their FILE EFFECTS (hand-written corners + shapes drawn from n), each in a directory of its own: the workspace is listed when the call gets the lock and when its tool has returned, the diff (created, deleted, modified) is compared with the affected_paths of the call's side-effects frame, and the call is replayed in Model/SideEffects.v (fx cases)".into();
     let n: usize = a.extra.get("n").and_then(|v| v.parse().ok()).unwrap_or(if a.thorough() { 500 } else { 50 });
     let settle = Duration::from_millis(a.extra.get("settle-ms").and_then(|v| v.parse().ok()).unwrap_or(250));
     // scratch dirs of earlier runs that were killed (watchdog of the driver): remove them
@@ -1422,6 +1604,7 @@ fn main() {
         scenarios.push(serde_json::from_value(v).expect("scenario"));
     } else {
         scenarios.extend(corpus());
+        scenarios.extend(corpus_fx());
         // regression scenarios kept under corpus/C11 (replays that caught seeded mutations)
         let dir = Path::new(env!("CARGO_MANIFEST_DIR")).join("..").join("corpus").join("C11");
         let mut files: Vec<PathBuf> = std::fs::read_dir(&dir).map(|rd| rd.flatten().map(|e| e.path()).filter(|p| p.extension().map(|x| x == "json").unwrap_or(false)).collect()).unwrap_or_default();
@@ -1438,8 +1621,14 @@ fn main() {
         for _ in 0..n {
             scenarios.push(gen_scenario(&mut r, a.thorough()));
         }
+        let n_fx: usize = a.extra.get("n-fx").and_then(|v| v.parse().ok()).unwrap_or(if a.thorough() { 150 } else { 12 });
+        for _ in 0..n_fx {
+            scenarios.push(gen_fx_scenario(&mut r));
+        }
     }
     let mut w = CaseWriter::new(&a.out, "Model.WsLockCase", "check_case", "model_obs", 50);
+    // the content of the frames: one case per mutating tool call of an attached run (Model/SideEffects.v), ids from 1 000 000
+    let mut wfx = CaseWriter::new(&a.out.join("fx"), "Base.Fs Model.SideEffects", "check_fx", "fx_obs", 25).with_base(1_000_000);
     let mut distinct = Distinct::default();
     let mut stuck_runs = 0;
     for (idx, sc) in scenarios.iter().enumerate() {
@@ -1483,16 +1672,32 @@ fn main() {
         if res.samples.len() < 3 {
             res.samples.push(json!({"scenario": rj, "steps": o.obs.steps, "frames": o.frames, "marks": o.marks}));
         }
+        res.oracle_checks += o.fx_cases.len() as u64;
+        res.bump_by("fx_calls_compared", o.fx_cases.len() as u64);
+        res.bump_by("fx_frames_with_list", o.fx_stats[0]);
+        res.bump_by("fx_listed_paths", o.fx_stats[1]);
+        res.bump_by("fx_listed_but_unchanged", o.fx_stats[2]);
+        res.bump_by("fx_frames_without_list", o.fx_stats[3]);
+        for tg in &o.fx_tags {
+            res.bump(&format!("fx_{}", tg.split(' ').next().unwrap_or("")));
+        }
         if !a.oracle_only() {
             let id = w.push(coq_case(sc, &o));
             if res.case_index.len() < 4000 {
-                res.case_index.insert(id.to_string(), rj);
+                res.case_index.insert(id.to_string(), rj.clone());
+            }
+            for term in &o.fx_cases {
+                let id = wfx.push(term.clone());
+                if res.case_index.len() < 4000 {
+                    res.case_index.insert(id.to_string(), rj.clone());
+                }
             }
         }
     }
     w.flush();
+    wfx.flush();
     res.distinct_nontrivial = distinct.count();
-    res.case_files = w.files.iter().map(|p| p.to_string_lossy().to_string()).collect();
+    res.case_files = w.files.iter().chain(wfx.files.iter()).map(|p| p.to_string_lossy().to_string()).collect();
     res.write(&a.out);
     rip_kernel::verif::set_hook(None);
     println!("c11: {} scenarios, {} violations, {} nontrivial", res.evaluations, res.oracle_violations.len(), res.distinct_nontrivial);
